@@ -1,7 +1,7 @@
 (* C02 - Mapper errors are precise and a failed call changes no mapping.
    About the abstract tree model (Paging/Tree.v), which the correspondence check ties to the
    three mapper implementations on whole call histories. *)
-From X86 Require Import Paging.Mapped Paging.Tree Paging.TreeProofs Paging.Refine Paging.RefineAtomic Paging.Run.
+From X86 Require Import Paging.Mapped Paging.Tree Paging.TreeProofs Paging.Refine Paging.RefineAtomic Paging.MemAtomic Paging.Run.
 Open Scope Z_scope.
 
 (* which outcome map_to reports is decided by the state it is called in *)
@@ -89,3 +89,21 @@ Theorem C02_failed_map_changes_no_translation_in_memory : forall s ch k page fra
   forall va, walk3 (enc_walk (hw_walk s' va)) = walk3 (enc_walk (hw_walk s va)).
 Proof. exact failed_map_changes_no_translation. Qed.
 Print Assumptions C02_failed_map_changes_no_translation_in_memory.
+
+(* ... and for the walking calls the memory model is literally unchanged by a failed call: in ANY
+   state (no invariant needed), unmap / update_flags / set_flags_p*_entry that report an error
+   return the state they were given *)
+Theorem C02_failed_unmap_returns_the_state_unchanged : forall s k page,
+  is_error (snd (unmap s k page)) -> fst (unmap s k page) = s.
+Proof. exact unmap_error_unchanged. Qed.
+Print Assumptions C02_failed_unmap_returns_the_state_unchanged.
+
+Theorem C02_failed_update_flags_returns_the_state_unchanged : forall s k page flags,
+  is_error (snd (update_flags s k page flags)) -> fst (update_flags s k page flags) = s.
+Proof. exact update_flags_error_unchanged. Qed.
+Print Assumptions C02_failed_update_flags_returns_the_state_unchanged.
+
+Theorem C02_failed_parent_flag_call_returns_the_state_unchanged : forall s k level page flags,
+  is_error (snd (set_flags_parent s k level page flags)) -> fst (set_flags_parent s k level page flags) = s.
+Proof. exact set_flags_parent_error_unchanged. Qed.
+Print Assumptions C02_failed_parent_flag_call_returns_the_state_unchanged.
